@@ -17,6 +17,7 @@ for name, cid, mid, args in framegen.METHODS:
 WITH_TABLE = [sm for sm in framegen.METHODS if SLOT[sm[0]]]
 WITHOUT = [sm for sm in framegen.METHODS if not SLOT[sm[0]]]
 SETTABLE = [p for p in framegen.PROPS if p[0] != 'cluster_id']
+LONG_KEY = 'x-' + 'k' * 140          # a field name the encoder shortens on the wire (never in the caller's table)
 
 
 class Session:
@@ -55,7 +56,7 @@ class Session:
 
     # -- operations --
     def new_dict(self):
-        d = self.rng.choice([{}, {}, {'x-a': 1}, gen.rand_table(self.rng, 2, 2)])
+        d = self.rng.choice([{}, {}, {'x-a': 1}, gen.rand_table(self.rng, 2, 2), {LONG_KEY: 'v', 'nested': {LONG_KEY: 1}}])
         self.users.append(d)
         self.add('HNewDict', v=abstract(d))
 
@@ -127,8 +128,9 @@ class Session:
         i = rng.choice(cand)
         target = self.container(self.objs[i]) if via_obj else self.users[i]
         if isinstance(target, dict):
-            key = rng.choice(['x-a', 'x-b', 'lit', 'k'])
-            v = rng.choice([rng.randint(0, 300), 'v', True, [1], {'n': 1}, 40000, 65535, 3000000000, 2 ** 31, -129, 32768, [40000, 3000000000]])
+            key = rng.choice(['x-a', 'x-b', 'lit', 'k', LONG_KEY])
+            v = rng.choice([rng.randint(0, 300), 'v', True, [1], {'n': 1}, 40000, 65535, 3000000000, 2 ** 31, -129, 32768, [40000, 3000000000],
+                            {LONG_KEY: 2}, [{LONG_KEY: 3}]])
             target[key] = v
             self.add('HMutate', via='obj' if via_obj else 'user', i=i + 1, key=[ord(c) for c in key], name='', v=abstract(v))
         elif isinstance(target, base.BasicProperties):
